@@ -162,11 +162,15 @@ def gather(ctx, pid):
             # every violated construct must have been looked at again: the
             # canonical form has an obligation of this sub-rule for the same
             # construct, or at least for the same function
-            keys2 = {o.key for o in mine}
-            funcs2 = {_func_of_key(o.key) for o in mine}
-            if not all(o.key in keys2 or (
+            # - and found in order there: a construct the canonical form
+            # leaves undecided is not cleared by it
+            keys2 = {o.key for o in mine if o.verdict != "undecided"}
+            und2 = {o.key for o in mine if o.verdict == "undecided"}
+            funcs2 = {_func_of_key(o.key) for o in mine
+                      if o.verdict != "undecided"}
+            if not all(o.key not in und2 and (o.key in keys2 or (
                     _func_of_key(o.key) is not None and
-                    _func_of_key(o.key) in funcs2) for o in bad[sub]):
+                    _func_of_key(o.key) in funcs2)) for o in bad[sub]):
                 continue
             del bad[sub]
             obs = [o for o in obs if o.rule != sub] + mine
